@@ -594,6 +594,47 @@ example : (toSaPair exProd2).toOption.map (fun e => (e.sInd, e.aInd, e.aIndptr, 
 example : ((toSaPair exProd2).toOption.bind fun e => (toProduct e).toOption).map (fun d => (d.n, d.m, d.R))
     = some (2, 2, [[.ninf, .fin 1], [.fin 0, .fin 3]]) := by decide
 
+
+/-! ## histories on one object -/
+
+section history
+variable {K : Type} [Zero K] [Add K] [Mul K] [LT K] [DecidableLT K]
+
+/-- **History theorem.** In any sequence of operations on one object — reassigning `beta`,
+    editing `R[j]` / `Q[j,:]` in place, `bellman_operator`, `T_sigma` — the `k`-th answer is the
+    answer of the `k`-th operation computed **from the current state** (the initial problem with
+    the earlier setters applied, in order) **and its arguments only**: no earlier query, output
+    buffer or cached quantity can influence it. -/
+theorem history_theorem (ops : List (Op K)) (d : DDP K) (k : Nat) :
+    (run d ops)[k]? = ops[k]?.map fun op => op.answer ((ops.take k).foldl Op.next d) := by
+  induction ops generalizing d k with
+  | nil => simp [run]
+  | cons op rest ih =>
+    cases k with
+    | zero => simp [run]
+    | succ k => simp [run, ih (op.next d) k]
+
+/-- queries leave the object as it is … -/
+theorem query_keeps_state (d : DDP K) (v : List K) (sigma : List Nat) :
+    Op.next d (.bellman v) = d ∧ Op.next d (.tsigma sigma v) = d := ⟨rfl, rfl⟩
+
+/-- … and answer with the operators all theorems of this file are about -/
+theorem query_answers (d : DDP K) (v : List K) (sigma : List Nat) :
+    Op.answer d (.bellman v) = .bell (d.bellman v).1 (d.bellman v).2 ∧
+    Op.answer d (.tsigma sigma v) = .vec (d.tSigma sigma v) := ⟨rfl, rfl⟩
+
+/-- hence two equal queries separated by queries only give equal answers, and a query after a
+    setter is the query on the updated problem -/
+theorem history_two_calls (d : DDP K) (v w : List K) (b : K) :
+    run d [.bellman v, .bellman w, .bellman v, .setBeta b, .bellman v]
+      = [.bell (d.bellman v).1 (d.bellman v).2, .bell (d.bellman w).1 (d.bellman w).2,
+         .bell (d.bellman v).1 (d.bellman v).2, .none,
+         .bell ((d.setBeta b).bellman v).1 ((d.setBeta b).bellman v).2] := rfl
+
+end history
+
+example : (run (DDP.sa exSa) [.bellman [5, 7], .setReward 1 (.fin 9), .bellman [5, 7]]).length = 3 := by decide
+
 /-! ## backward induction -/
 
 section backward
